@@ -283,8 +283,8 @@ func cmdCheck(args []string) int {
 		return checkC16(spec, *repo, *tier, seed, *workers)
 	}
 	t0 := time.Now()
-	evPath := filepath.Join(verifDir, "evidence", id+".json")
-	os.MkdirAll(filepath.Join(verifDir, "evidence", "replay"), 0o755)
+	evPath := filepath.Join(evidenceDir(), id+".json")
+	os.MkdirAll(filepath.Join(evidenceDir(), "replay"), 0o755)
 
 	kf := loadKnown()
 	open := map[string]knownFinding{}
@@ -442,7 +442,7 @@ func cmdCheck(args []string) int {
 			}
 			ro := native.run(run.Pkg, bv)
 			if ro.Status == "timeout" {
-				path := filepath.Join(verifDir, "evidence", "replay", fmt.Sprintf("%s-%s-budget-%d.json", id, run.Entry, bi))
+				path := filepath.Join(evidenceDir(), "replay", fmt.Sprintf("%s-%s-budget-%d.json", id, run.Entry, bi))
 				data, _ := json.MarshalIndent(bv, "", " ")
 				os.WriteFile(path, data, 0o644)
 				msg := fmt.Sprintf("%s: terminates: handling does not end within the step budget and the native run does not terminate within 20s, input=[%s]", run.Entry, fmtVec(bv))
@@ -457,7 +457,7 @@ func cmdCheck(args []string) int {
 				he.Inconclusive = append(he.Inconclusive, fmt.Sprintf("%s: %s: counterexample without model", run.Entry, c.label))
 				continue
 			}
-			path := filepath.Join(verifDir, "evidence", "replay", fmt.Sprintf("%s-%s-%d.json", id, run.Entry, i))
+			path := filepath.Join(evidenceDir(), "replay", fmt.Sprintf("%s-%s-%d.json", id, run.Entry, i))
 			data, _ := json.MarshalIndent(c.vec, "", " ")
 			os.WriteFile(path, data, 0o644)
 			confirmed := false
